@@ -583,6 +583,12 @@ def is_in_polygon(polygon, points, ncaps=0):
             p[key] = getattr(polygon, key)
         except AttributeError:
             p[key] = polygon[pmap[key]]
+    #
+    # A FITS table whose polygons all have a single cap stores XCAPS as a
+    # 3-vector and CMCAPS as a scalar.
+    #
+    p['x'] = np.atleast_2d(p['x'])
+    p['cm'] = np.atleast_1d(p['cm'])
     usencaps = p['ncaps']
     if ncaps > 0:
         usencaps = min(ncaps, p['ncaps'])
